@@ -284,10 +284,42 @@ theorem jpegls_lossless_roundtrip (P : Nat) (hP : 2 ≤ P ∧ P ≤ 16) (comps :
   have hadm : JpegLsNear.Admissible P 0 := ⟨hP, by omega, by omega, by
     have : (0 : Int) < 2 ^ P := Int.pow_pos (by decide)
     omega⟩
-  obtain ⟨ws, recs, he, hcl, _, hd⟩ := JpegLsScanL.image_roundtrip P 0 hadm comps hc w lines hl
+  obtain ⟨ws, recs, he, hcl, _, _, hd⟩ := JpegLsScanL.image_roundtrip P 0 hadm comps hc w lines hl
   have heq := JpegLsScanL.image_close_zero_eq hcl
   subst heq
   exact ⟨ws, by rw [he]; rfl, hd⟩
+
+/-- (11e) WHOLE IMAGES, byte level (encoder side): the scan bytes the `GolombWriter` model emits for
+    the encoder's `WriteBits` calls followed by `Flush()` — which are the bytes of the real `Encode`'s
+    entropy-coded segment by correspondence (`jls-scanL-enc`) — un-stuffed by the T.87 rule (every byte
+    8 bits, the byte after 0xFF its low 7: `Golomb.destuff`), decode to exactly the source image; what
+    is left over is zero padding only.  Uses the exactness of the writer (`Golomb.writer_destuff`:
+    un-stuffed bytes = written bits ++ zeros, through both overflow flushes of `WriteBits`) and the
+    well-formedness of every call the scan issues (`WritesFit`). -/
+theorem jpegls_lossless_roundtrip_bytes (P : Nat) (hP : 2 ≤ P ∧ P ≤ 16) (comps : Nat) (hc : 1 ≤ comps) (w : Nat)
+    (lines : List (List JpegLsScanL.Pixel))
+    (hl : ∀ l ∈ lines, JpegLsScanL.LineOk comps ((2 : Int) ^ P - 1) w l) :
+    ∃ ws k, (JpegLsScanL.encodeImage (JpegLsNear.traits P 0) w comps lines).toOption.map (·.1) = some ws ∧
+      JpegLsScanL.decodeImage (JpegLsNear.traits P 0) w lines.length comps
+        (Golomb.destuff (Golomb.finish (Golomb.writeAll Golomb.Writer.new ws)).out false) =
+        .ok (lines, List.replicate k false) := by
+  have hadm : JpegLsNear.Admissible P 0 := ⟨hP, by omega, by omega, by
+    have : (0 : Int) < 2 ^ P := Int.pow_pos (by decide)
+    omega⟩
+  obtain ⟨ws, recs, k, he, hcl, _, hd⟩ := JpegLsScanL.image_bytes_roundtrip P 0 hadm comps hc w lines hl
+  have heq := JpegLsScanL.image_close_zero_eq hcl
+  subst heq
+  exact ⟨ws, k, by rw [he]; rfl, hd⟩
+
+/-- (11f) exactness of the bit writer on its own: for every well-formed sequence of `WriteBits` calls
+    (`count ∈ 0..32`, `value < 2^count`) followed by `Flush()`, the un-stuffed bytes are the written bits
+    followed by zero bits -/
+theorem golomb_writer_exact (ws : List (Nat × Int)) (hf : Golomb.WritesFit ws) :
+    ∃ k, Golomb.destuff (Golomb.finish (Golomb.writeAll Golomb.Writer.new ws)).out false =
+      Golomb.writesBits ws ++ List.replicate k false := Golomb.writer_destuff ws hf
+
+example : Golomb.destuff (Golomb.finish (Golomb.writeAll Golomb.Writer.new [(255, 8), (1, 1)])).out false =
+    Golomb.writesBits [(255, 8), (1, 1)] ++ List.replicate 6 false := by decide
 
 example : JpegLsScanL.LineOk 1 ((2 : Int) ^ 12 - 1) 4 [[4095], [0], [4095], [0]] := by
   refine ⟨rfl, ?_⟩
